@@ -69,6 +69,23 @@ func c01Gen(rng *rand.Rand, tier string) []core.Spec {
 		}
 		out = append(out, &RoundSpec{W: w, RBuf: core.Pick(rng, rbufChoices), ChunkSeed: rng.Int63(), ReadStyle: rng.Intn(2), NMsgs: cnt})
 	}
+	// large buffers on both sides (the fast paths of the masking code for long slices): messages at
+	// and beyond the buffer sizes
+	for _, wbuf := range []int{8192, 16384} {
+		for _, rbuf := range []int{4096, 8192, 16384} {
+			for _, server := range []bool{false, true} {
+				for _, n := range []int{wbuf - 1, wbuf, wbuf + 1, 2*wbuf + 17, 4120, 40000} {
+					if tier != "thorough" && rng.Intn(3) != 0 {
+						continue
+					}
+					data := genWPayload(rng, n)
+					ops := []WOp{{K: 0, Ty: 2, Data: data}, {K: 1, Ty: 1}, {K: 2, Data: data[:n/3]}, {K: 2, Data: data[n/3:]}, {K: 5}}
+					out = append(out, &RoundSpec{W: WriterSpec{Server: server, WBuf: wbuf, FailAt: -1, Note: "large-buffers", Ops: ops},
+						RBuf: rbuf, ChunkSeed: rng.Int63(), ReadStyle: rng.Intn(2), NMsgs: 2})
+				}
+			}
+		}
+	}
 	// the documented finding: a valid control message larger than the write buffer
 	for _, server := range []bool{false, true} {
 		out = append(out, &RoundSpec{W: WriterSpec{Server: server, WBuf: 10, FailAt: -1, Note: "control-larger-than-buffer",
